@@ -75,6 +75,12 @@ CORPUS = [
     ("C05", "R-C05-cos", B, "sasmodels/kernel_iq.c", "      weight = fabs(cos(dtheta*M_PI_180)) * weight0; \\\n    } while (0)\n  #elif PROJECTION == 2", "      weight = weight0; \\\n    } while (0)\n  #elif PROJECTION == 2", "projection weight dropped"),
     ("C05", "R-C05-view-jitter", B, "sasmodels/kernel_iq.c", "  const double phi = values[details->theta_par+3];\n  // Make sure jitter", "  const double phi = values[details->theta_par+4];\n  // Make sure jitter", "wrong view slot"),
     ("C05", "R-C05-convention", B, "sasmodels/jitter.py", "    points = Rz(phi)@Ry(theta)@Rz(psi)@points # viewing angle", "    points = Ry(theta)@Rz(phi)@Rz(psi)@points # viewing angle", "reference chain order"),
+    ("C05", None, T, "sasmodels/kernel_iq.c", "    const double V22 = -sin_phi*sin_psi*cos_theta + cos_phi*cos_psi;\n    const double V31 = sin_theta*cos_phi;\n    const double V32 = sin_phi*sin_theta;\n\n    // reverse jitter matrix\n",
+     "    const double V22 = -sin_phi*sin_psi*cos_theta + cos_phi*cos_psi;\n    const double V31 = sin_theta*cos_phi;\n    const double V32 = sin_phi*sin_theta;\n\n    if (dtheta == 0.0 && dphi == 0.0 && dpsi == 0.0) {\n        rotation->R11 = V11; rotation->R12 = V12;\n        rotation->R21 = V21; rotation->R22 = V22;\n        rotation->R31 = V31; rotation->R32 = V32;\n        return;\n    }\n\n    // reverse jitter matrix\n",
+     "correct no-jitter fast path (decided per path)"),
+    ("C05", "R-C05-matrix", B, "sasmodels/kernel_iq.c", "    const double V22 = -sin_phi*sin_psi*cos_theta + cos_phi*cos_psi;\n    const double V31 = sin_theta*cos_phi;\n    const double V32 = sin_phi*sin_theta;\n\n    // reverse jitter matrix\n",
+     "    const double V22 = -sin_phi*sin_psi*cos_theta + cos_phi*cos_psi;\n    const double V31 = sin_theta*cos_phi;\n    const double V32 = sin_phi*sin_theta;\n\n    if (dtheta == 0.0 && dphi == 0.0 && psi == 0.0) {\n        rotation->R11 = V11; rotation->R12 = V12;\n        rotation->R21 = V21; rotation->R22 = V22;\n        rotation->R31 = V31; rotation->R32 = V32;\n        return;\n    }\n\n    // reverse jitter matrix\n",
+     "fast path guarded by the view angle instead of the jitter"),
     ("C05", None, T, "sasmodels/kernel_iq.c", "    const double V11 = cos_phi*cos_theta;\n    const double V12 = sin_phi*cos_theta;", "    const double V11 = cos_theta*cos_phi;\n    const double V12 = cos_theta*sin_phi;", "factor order"),
     # ---- C06 ------------------------------------------------------------
     ("C06", "R-C06-weights", B, "sasmodels/kernel_iq.c", "  weight[1] = (1.0-in_spin) * out_spin / norm;       // du", "  weight[1] = in_spin * (1.0-out_spin) / norm;       // du", "du/ud swapped"),
